@@ -11,6 +11,7 @@ structure St where
   cmds : List CmdDef := []
   sims : List (String × String) := []
   nodes : List Node := []
+  xnodes : List XNode := []
 
 def St.env (s : St) : Env :=
   ⟨s.tags, s.cmds, fun a b => s.sims.contains (a, b), OPM.Gen.unitSys⟩
@@ -29,6 +30,9 @@ def showAn : An → String
   | .condition => "C"
   | .simulate => "S"
   | .command => "M"
+  | .indentation => "I"
+  | .threshold => "T"
+  | .macro => "X"
 
 def showItem (i : Item) : String :=
   s!"{showAn i.an}:{i.id}:{i.line}:{if i.isError then "E" else "-"}:{if i.hasFix then "fix" else "-"}"
@@ -74,12 +78,47 @@ def step (s : St) (line : String) : St × String :=
         ({ s with nodes := s.nodes ++ [⟨ln, k, c, inm, lt, args, ha, av⟩] }, "ok")
       | _, _, _, _, _ => (s, "bad-op")
     | _, _, _, _, _, _, _, _ => (s, "bad-op")
+  | ["xnode", ln, k, hc, tn, op, rhs, tv, tu, inm, lt, args, ha, av, ie, ws, th, par, mk, mname, mrec] =>
+    -- a node with what the indentation / threshold / macro analyzers read in addition
+    match ln.toNat?, parseKind k, parseBool hc, decodeOpt tn, decodeStr op, decodeStr rhs, decodeOpt tv,
+          decodeOpt tu with
+    | some ln, some k, some hc, some tn, some op, some rhs, some tv, some tu =>
+      match decodeStr inm, decodeStr lt, decodeStr args, parseBool ha, parseBool av with
+      | some inm, some lt, some args, some ha, some av =>
+        match parseBool ie, parseBool ws, decodeOpt th, par.toNat?, decodeStr mname, parseBool mrec with
+        | some ie, some ws, some th, some par, some mname, some mrec =>
+          let thr : Option (Option Rat) := match th with
+            | none => some none
+            | some t => match OPM.Units.parseDec t with
+              | .num r => some (some r)
+              | _ => none
+          let mkd : Option MKind :=
+            if mk = "none" then some .none else if mk = "macro" then some (.macro mname mrec)
+            else if mk = "call" then some (.call mname) else none
+          match thr, mkd with
+          | some thr, some mkd =>
+            let c : Option Cond := if hc then some ⟨tn, op, rhs, tv, tu⟩ else none
+            let n : Node := ⟨ln, k, c, inm, lt, args, ha, av⟩
+            ({ s with nodes := s.nodes ++ [n], xnodes := s.xnodes ++ [⟨n, ie, ws, thr, par, mkd⟩] }, "ok")
+          | _, _ => (s, "bad-op")
+        | _, _, _, _, _, _ => (s, "bad-op")
+      | _, _, _, _, _ => (s, "bad-op")
+    | _, _, _, _, _, _, _, _ => (s, "bad-op")
+  | ["analyzeall"] =>
+    (s, match analyzeAll s.env true s.xnodes with | .ok l => showItems l | .error e => showAErr e)
+  | ["analyzeallold"] =>
+    (s, match analyzeAll s.env false s.xnodes with | .ok l => showItems l | .error e => showAErr e)
   | ["analyze"] =>
     (s, match analyze s.env true s.nodes with | .ok l => showItems l | .error e => showAErr e)
   | ["analyzeold"] =>
     (s, match analyze s.env false s.nodes with | .ok l => showItems l | .error e => showAErr e)
   | [c] =>
-    if c = "lint" || c = "lintold" then
+    if c = "lintall" || c = "lintallold" then
+      let ds := lintAll s.env (c = "lintall") s.xnodes
+      (s, if ds.isEmpty then "none" else " ".intercalate (ds.map fun d => match d with
+        | .generic => "generic"
+        | .ofItem i => s!"{i.id}:{i.line}:{if i.isError then "E" else "-"}:{if i.hasFix then "fix" else "-"}"))
+    else if c = "lint" || c = "lintold" then
       let ds := lint s.env (c = "lint") s.nodes
       (s, if ds.isEmpty then "none" else " ".intercalate (ds.map fun d => match d with
         | .generic => "generic"
